@@ -32,7 +32,9 @@ def canon_impl(line):
             # a subscription is persisted after its answer, by a task that goes on after the controller has
             # its answer: which datagram of the device was the last one of the operation depends on timing
             ack = "*"
-        out.append("|".join([st, p[1], ack] + p[3:]))
+        # fields past the kind are the harness's own bookkeeping (which commissioning a fabric index stands
+        # for, the session an H established): monitor input, not something the model prints
+        out.append("|".join([st, p[1], ack] + p[3:7]))
     return f[0] + " " + f[1] + " " + ";".join(out) + sep + cuts
 
 
